@@ -30,6 +30,9 @@ if os.environ.get("SPIL_VERIF_MAXSIZE"):      # harness-side: shrink the caches 
     from spil.util import caching as _caching
     _caching._max_size = int(os.environ["SPIL_VERIF_MAXSIZE"])
 
+if os.environ.get("SPIL_VERIF_FIRST_CONFIG"):     # harness-side: which path configuration the process touches first
+    get_path_config(os.environ["SPIL_VERIF_FIRST_CONFIG"])
+
 import spil_sid_conf as _raw
 CONF_DIR = os.path.dirname(os.path.abspath(_raw.__file__)).replace(os.sep, "/")
 
@@ -71,6 +74,8 @@ def jdict(d):
 
 
 def sid_from(j):
+    if j.get("obj") is not None:
+        return Sid(sid_from(j["obj"]))
     if j.get("s") is not None:
         return Sid(j["s"])
     if j.get("fields") is not None:
